@@ -36,6 +36,19 @@ theorem extend_le (t : List Nat) (p pred : Nat) : ∀ (f l : Nat), l ≤ t.lengt
     · rename_i hc; exact ih (l + 1) (by omega)
     · exact h
 
+theorem extend_comm (t : List Nat) (p pred : Nat) : ∀ (f l : Nat), extend t p pred f l = extend t pred p f l := by
+  intro f
+  induction f with
+  | zero => intro l; rfl
+  | succ f ih =>
+    intro l
+    simp only [extend]
+    rw [ih (l + 1)]
+    have : (pred + l < t.length ∧ p + l < t.length ∧ t.getD (p + l) 0 = t.getD (pred + l) 0) ↔
+        (p + l < t.length ∧ pred + l < t.length ∧ t.getD (pred + l) 0 = t.getD (p + l) 0) := by
+      constructor <;> (intro h; exact ⟨h.2.1, h.1, h.2.2.symm⟩)
+    simp only [this]
+
 /-- the `while` loop = the model's `extend` (one more unit of fuel: the translated loop needs a call to see the exit) -/
 theorem while1_eq (t : List Nat) (p pred : Nat) (hsz : t.length + t.length < 2 ^ 64) (hp : p ≤ t.length)
     (hpred : pred ≤ t.length) :
@@ -131,8 +144,11 @@ theorem for2_eq (t sa : List Nat) (hlen : sa.length = t.length) (hsz : t.length 
     have e1 : Rs.sub (sa.idxOf p) 1 = Res.ok (sa.idxOf p - 1) := Rs.sub_ok hr1
     have e2 : Rs.idx sa (sa.idxOf p - 1) = Res.ok (sa.getD (sa.idxOf p - 1) 0) := idx_getD sa _ 0 (by omega)
     have e3 := while1_eq t p (sa.getD (sa.idxOf p - 1) 0) (by omega) (by omega) (by omega) t.length l hl (by omega)
+    -- (the helper's parameters are ordered by first use: `p + l < n && pred + l < n` swaps them)
+    have e3' := while1_eq t (sa.getD (sa.idxOf p - 1) 0) p (by omega) (by omega) (by omega) t.length l hl (by omega)
+    rw [extend_comm] at e3'
     have hle := extend_le t p (sa.getD (sa.idxOf p - 1) 0) t.length l hl
-    generalize hE : extend t p (sa.getD (sa.idxOf p - 1) 0) t.length l = l' at e3 hle
+    generalize hE : extend t p (sa.getD (sa.idxOf p - 1) 0) t.length l = l' at e3 e3' hle
     have e4 : Rs.toSigned 64 l' = (l' : Int) := toSigned_small (by omega)
     have e5 : Rs.setIdx lcp (sa.idxOf p) (l' : Int) = Res.ok (lcp.set (sa.idxOf p) (l' : Int)) := Rs.setIdx_ok (by omega)
     obtain ⟨l'', h⟩ := ih (l' - 1) (lcp.set (sa.idxOf p) (l' : Int)) (fun x hx => hps x (List.mem_cons_of_mem _ hx))
@@ -142,13 +158,13 @@ theorem for2_eq (t sa : List Nat) (hlen : sa.length = t.length) (hsz : t.length 
     · have e6 : Rs.sub l' 1 = Res.ok (l' - 1) := Rs.sub_ok (by omega)
       have h0' : 0 < l' := h0
       have h0'' : l' ≠ 0 := by omega
-      simp [-List.getD_eq_getElem?_getD, SrcLcp.lcp_for2, kasaiGo, e1, e2, e3, e4, e5, e6, h0, h0', h0'', h, hE]
+      simp [-List.getD_eq_getElem?_getD, SrcLcp.lcp_for2, kasaiGo, e1, e2, e3, e3', e4, e5, e6, h0, h0', h0'', h, hE]
     · have h00 : l' = 0 := by omega
       subst h00
       have h' : SrcLcp.lcp_for2 sa t.length t (ps.map (fun p => (sa.idxOf p, p))) (0, lcp.set (sa.idxOf p) 0) =
           Res.ok (l'', kasaiGo t sa ps 0 (lcp.set (sa.idxOf p) 0)) := by simpa using h
       have e5' : Rs.setIdx lcp (sa.idxOf p) 0 = Res.ok (lcp.set (sa.idxOf p) 0) := by simpa using e5
-      simp [-List.getD_eq_getElem?_getD, SrcLcp.lcp_for2, kasaiGo, e1, e2, e3, e4, e5', hE, h']
+      simp [-List.getD_eq_getElem?_getD, SrcLcp.lcp_for2, kasaiGo, e1, e2, e3, e3', e4, e5', hE, h']
 
 /-- **translated `lcp` = mirror model `Kasai.kasai`** for every permutation `sa` of the positions of a non-empty text that
 starts with `n - 1` (what keeps `rank[p] - 1` from underflowing); `n + 1 < 2^63` (`l as isize`). -/
